@@ -79,7 +79,7 @@ theorem failure_causes_fail (s : S) (a : Nat) (hst : isStarting s a = true) :
 /-- … and so does a `pre_start` that succeeds while the requested supervisor has already
 stopped ("Supervisor is shutting down"). -/
 theorem refused_link_fails (s : S) (a p : Nat) (x : Actor) (hx : s.actors[a]? = some x)
-    (hxs : x.phase = .starting) (hsup : x.sup = some p) (hdead : supAccepts s p = false) :
+    (hxs : x.phase = .starting) (hsup : x.req = some p) (hdead : supAccepts s p = false) :
     ((step s (.finish a .ok)).actors[a]?).map (·.failedStart) = some true := by
   have hst : isStarting s a = true := isStarting_iff.mpr ⟨x, hx, hxs⟩
   have := failure_causes_fail s a hst (.cut a) (by simp)
@@ -165,6 +165,34 @@ theorem src_local_start_order : Extracted.localStartOrder = true := by decide
 theorem src_cleanup_order : Extracted.cleanupOrder =
     ["set_status:Stopping", "terminate", "notify_supervisor", "unlink", "set_status:Stopped"] := by decide
 
+/-! ### links made by `pre_start` itself -/
+
+/-- (`myself.get_cell().link(w)` in `pre_start`) While it is starting the actor then sits in
+`w`'s child set … -/
+theorem selflink_is_child (s : S) (a w : Nat) (hst : isStarting s a = true) (hw : supAccepts s w = true)
+    (hne : a ≠ w) : a ∈ childrenOf (step s (.selflink a w)) w := by
+  obtain ⟨x, hx, _⟩ := isStarting_iff.mp hst
+  have hlt : a < s.actors.length := (List.getElem?_eq_some_iff.mp hx).1
+  have hne' : (a != w) = true := by simpa using hne
+  simp only [step, hst, hw, hne', Bool.and_self, if_true, childrenOf, List.mem_filter, List.mem_range]
+  refine ⟨by simpa [setActor] using hlt, ?_⟩
+  rw [getElem?_setActor, hx]
+  simp
+
+/-- … and if the spawn then fails — in particular when `pre_start` returned Ok but the
+requested supervisor refuses the link — `w` is told nothing and holds nothing: the failed
+start is in no child set and no lifecycle event about it exists, in every later state. -/
+theorem selflinked_failed_start_tells_nobody (ops : List Op) (a : Nat) (x : Actor)
+    (hx : (run ops).actors[a]? = some x) (hf : x.failedStart = true) :
+    (∀ e ∈ (run ops).events, e.2.1 ≠ a) ∧ (∀ w, a ∉ childrenOf (run ops) w) ∧
+      (∀ (b : Nat) (y : Actor), (run ops).actors[b]? = some y → ∀ ce ∈ y.pending, ce.1 ≠ a) := by
+  have hg := good_run ops
+  refine ⟨(failed_start_leaves_nothing ops a x hx hf).2.2.2.2.2.2.2.2,
+    fun w => failed_start_in_no_child_set ops a x hx hf w, ?_⟩
+  intro b y hy ce hce heq
+  obtain ⟨z, hz, _, hfl⟩ := hg.pend b y hy ce hce
+  rw [heq, hx] at hz; cases hz; rw [hf] at hfl; cases hfl
+
 /-! ### Non-vacuity -/
 
 /-- supervisor 0 runs; 1 is spawned under it with a name, joins a group, spawns a child, is
@@ -178,6 +206,23 @@ example : ((run exampleOps).actors.map (fun x => (x.phase, x.failedStart))) =
 example : (run exampleOps).ports = [.senderError] ∧ (run exampleOps).events = [] ∧ (run exampleOps).names = [] := by
   decide
 example : ok (run exampleOps) = true := by decide
+
+/-- the seeded scenario C08-1: watcher 0 and supervisor 1 run; 2 is spawned under 1 and links
+itself to 0 in pre_start; 1 stops; pre_start returns Ok: the link to 1 is refused, 2 is a failed
+start, and the watcher 0 — which had it as a child — hears nothing. -/
+def exampleSelflink : List Op :=
+  [.begin none none, .finish 0 .ok, .begin none none, .finish 1 .ok, .begin none (some 1),
+   .selflink 2 0, .stop 1, .finish 2 .ok]
+
+example : childrenOf (run (exampleSelflink.take 6)) 0 = [2] := by decide
+example : ((run exampleSelflink).actors.map (fun x => (x.phase, x.failedStart))) =
+    [(.running, false), (.stopped, false), (.stopped, true)] ∧ (run exampleSelflink).events = [] ∧
+    childrenOf (run exampleSelflink) 0 = [] := by decide
+/-- had 1 still been running, it would have taken 2 over from 0 -/
+example : childrenOf (run [.begin none none, .finish 0 .ok, .begin none none, .finish 1 .ok,
+    .begin none (some 1), .selflink 2 0, .finish 2 .ok]) 1 = [2] ∧
+    childrenOf (run [.begin none none, .finish 0 .ok, .begin none none, .finish 1 .ok,
+    .begin none (some 1), .selflink 2 0, .finish 2 .ok]) 0 = [] := by decide
 
 /-- thread-local: 1 starts under the running supervisor 0 and is its child at once; 0 is
 stopped and takes the starting 1 along; a spawn under the stopped 0 fails before pre_start;
@@ -204,6 +249,8 @@ end C08
 #print axioms C08.tl_starting_child_is_linked
 #print axioms C08.killed_starting_child_is_failed_start
 #print axioms C08.failed_start_in_no_child_set
+#print axioms C08.selflink_is_child
+#print axioms C08.selflinked_failed_start_tells_nobody
 
 #print axioms C08.src_guard_silent_before_running
 #print axioms C08.src_start_order
